@@ -462,7 +462,9 @@ def evaluate(model, exes, lines):
                 res['err'].append('harness answer %r for %r' % (i, lines[idx]))
                 continue
             io, vo = sp[0][5:], sp[1][4:]
-            same = io == mstr[idx] or (io == 'OOB' and ',UB' in (',' + mstr[idx].split(';')[2]))
+            # a model outcome `UB` (precondition of a standard algorithm violated, or an access outside
+            # the memory block) puts no constraint on the implementation
+            same = io == mstr[idx] or ',UB' in (',' + mstr[idx].split(';')[2])
             if sstr[idx] == 'bad-init':
                 verdict = None
             elif same:
